@@ -323,9 +323,15 @@ def T_qf1002(kind):
 def T_qf1003(kind):
     def t(o, c, X):
         D, consts, o = tag_operands(kind, o)
-        return join(X.decl("tag", D),
-                    'if %s == %s {\n\t\tres = "one"\n\t} else if %s == %s {\n\t\tres = "two"\n\t} else if %s == %s || %s == %s {\n\t\tres = "nine"\n\t} else {\n\t\tres = "other"\n\t}' % (
-                        X("tag", 1, D), o[0], X("tag", 2, D), o[1], X("tag", 3, D), consts[0], X("tag", 4, D), consts[1]))
+        jump = {"stmt": "", "swcase_break": "\n\t\tbreak", "loop_break": "\n\t\tbreak", "loop_continue": "\n\t\tcontinue"}[c]
+        chain = 'if %s == %s {\n\t\tres = "one"%s\n\t} else if %s == %s {\n\t\tres = "two"\n\t} else if %s == %s || %s == %s {\n\t\tres = "nine"%s\n\t} else {\n\t\tres = "other"\n\t}' % (
+            X("tag", 1, D), o[0], jump, X("tag", 2, D), o[1], X("tag", 3, D), consts[0], X("tag", 4, D), consts[1], jump)
+        if c == "swcase_break":
+            # no loop around the chain: the unlabeled break leaves this switch and skips the tail
+            chain = 'switch {\n\tcase i1 < 1000000:\n\t' + chain.replace("\n", "\n\t") + '\n\t\tres += ",tail"\n\t}'
+        elif c in ("loop_break", "loop_continue"):
+            chain = 'for k := 0; k < 2; k++ {\n\t' + chain.replace("\n", "\n\t") + '\n\t\tres += ",tail"\n\t}'
+        return join(X.decl("tag", D), chain)
     return t
 
 
